@@ -76,6 +76,9 @@ class RefVMDKSparse(_Base):
         self.raw = raw
         if raw[:4] == b"KDMV":
             _v, _f, cap, grain, _do, _ds, ngte, _rgd, gd, _ov = struct.unpack_from("<IIQQQQIQQQ", raw, 4)
+            if gd == 0xFFFFFFFFFFFFFFFF:
+                # "at the end": the footer (a second header 1024 bytes before the end of the file) has the real offset
+                gd = struct.unpack_from("<IIQQQQIQQQ", raw, len(raw) - 1024 + 4)[8]
         else:
             assert raw[:4] == b"COWD"
             _v, _f, cap, grain, gd, _ngd, _nf = struct.unpack_from("<IIIIIII", raw, 4)
